@@ -65,7 +65,8 @@ def lib_tasks(tier):
             progs.append(('OOMEDIT %s %s' % (st, c12.op_text(op)), 'edit:' + op[0] + ('-del' if op[1] is None and op[0] != 'strip' else '')))
     from . import c07
     rules = c07.templated_rules()
-    for r in rules[::(4 if quick else 1)]:
+    # (rules with a backslash take the parser's rarely used branches: always all of them)
+    for r in list(dict.fromkeys(rules[::(4 if quick else 1)] + [x for x in rules if b'\\' in x])):
         if R.G.valid_utf8(r) and b'\0' not in r and len(r) < 1100:
             progs.append(('OOMRULE ' + (r.hex() or '-'), 'rule'))
     for i in range(0, len(progs), 30):
@@ -139,6 +140,7 @@ def task_config(t):
 N1 = b'com.example.N1'
 RULE1 = b"type='signal',interface='o.i'"
 RULE2 = b"type='signal',member='Other'"
+RULE3 = b"type='signal',arg0=foo\\bar,arg1='it''s',arg2=\\'q,arg3path='/a\\b'"
 
 
 class OomSession(BusSession):
@@ -169,6 +171,9 @@ class OomSession(BusSession):
             return R.bus_call(s, 'ReleaseName', [R.S(N1)])
         if kind == 'add':
             return R.bus_call(s, 'AddMatch', [R.S(RULE2)])
+        if kind == 'addesc':
+            # a rule text that takes the parser through its quoting/escaping branches (the rule the bus installs shows in the dump)
+            return R.bus_call(s, 'AddMatch', [R.S(RULE3)])
         if kind == 'rm':
             return R.bus_call(s, 'RemoveMatch', [R.S(RULE2)])
         if kind == 'call':
@@ -244,6 +249,7 @@ def requests_for(prefix):
     reqs.append(['req', 'A', 2])
     reqs.append(['req', 'C', 3])
     reqs.append(['callfd', 'C', 'B'])
+    reqs.append(['addesc', 'C'])
     # a connection going away is also "an operation": its cleanup must complete whatever allocation fails
     reqs.append(['disc', 'A'])
     reqs.append(['disc', 'B'])
